@@ -18,7 +18,21 @@ How a mesh is checked (round-3 lessons C, D, E, A):
   expectation is the object's current public state, cross-checked by fresh objects built from the same content;
 * generators: stratified id style x storage-order class (incl. contiguous-with-offset and gapped small id ranges),
   disjoint unions of components with isolated single elements / isolated nodes, element ids interleaving the types,
-  blocked by type or equal to node ids."""
+  blocked by type or equal to node ids.
+
+Round 5 (classes K, M, N, O, Q, S, T of ROUND5.md and F of ROUND4.md):
+* HOP COUNTS follow the graph: its diameter D is computed first; 1, 2, 3 always, on D >= 4 also 4, values in 5..D and one
+  value beyond D; on short graphs sometimes one saturated larger value (hop_plan); the hop count is sometimes handed over
+  as a numpy integer; the expectation is reachability by its recurrence (not by sums of powers);
+* LARGE-DIAMETER graphs are a deliberate style (gen_long: chains / rings of elements sharing 1 or 2 corner nodes; uniform,
+  mixed types, tet + tet2 / hex + hex2 in one mesh; rings of line elements give SQUARE incidence matrices), every 11th mesh;
+* negative and zero ids next to positive ones (signed_ids), elements listing a node twice and twin elements with the same
+  members (many_to_one), integer dtype / Fortran order / read-only flag of the id and connectivity arrays (gen_layout);
+* every 13th mesh is queried THROUGH A DERIVED OBJECT (to_first_order, cut_with_element_ids in a non-ascending order,
+  cut_with_element_type, cut_with_node_ids, also after the parent answered graph queries); expectation = public state of
+  the derived object, cross-checked by an object built directly from that state; the parents' user data is watched too;
+* calls outside the quantifier that raise (unknown mode, e2v with include_self_loop=True) are interleaved and not judged:
+  what follows on the same object is judged as ever."""
 import threading
 import traceback
 import warnings
@@ -33,6 +47,7 @@ LEAN_MODULES = ['Femio.Props.C13']
 THEOREMS = ['C13_incidence', 'C13_incidence_order1', 'C13_isSecond_table', 'C13_adjacency_elem', 'C13_adjacency_node',
             'nHopAuxM_refines', 'C13_nhop_reach', 'C13_nhop_mono', 'C13_nhop_selfloop_diag', 'C13_nhop_step',
             'C13_nhop_step_selfloops', 'C13_nhop_step_noloop_counterexample',
+            'C13_nhop_add', 'C13_nhop_double', 'C13_nhop_binary_power_counterexample',
             'C13_memo_history', 'C13_memo_history_fresh', 'C13_memo_wrong_key_counterexample',
             'C13_laplacian_rowsum', 'C13_laplacian_offdiag', 'C13_laplacian_diag',
             'C13_edge_gradient', 'C13_edge_gradient_undirected', 'C13_e2v', 'C13_e2v_selfloop',
@@ -43,18 +58,28 @@ PARTIAL = ['C13_e2v needs "every vertex has its self loop" (no unreferenced node
            'model does not reproduce: compared as sets / multisets, as the property states them',
            'C13_memo_history is about an abstract memo table (any key -> value store filled only with results of the pure '
            'function): the lru_cache machinery of femio itself is exercised by the live-object sequences, not modelled '
-           '(C19 models it)']
+           '(C19 models it)',
+           'C13_nhop_add / C13_nhop_double justify formulations of the n-hop matrix by products of powers only for adjacencies with '
+           'all self loops; the binary-powering variant nHopBin is a model of a POSSIBLE reformulation (decided on the 5-path), '
+           'not of the current code, and has no general correctness theorem']
 RULE = ('seeded meshes: conforming geometric (tet, hex, mixed hex+prism+pyr, tet2 by promotion; voids => several components), '
         'combinatorial (arbitrary connectivity, types incl. tet2/hex2) and disjoint unions of 2-4 such components with isolated '
         'single elements and isolated nodes; node ids stratified over id style (dense, sparse, large, huge, prefix, '
         'contiguous-with-offset, gapped small ranges) x storage order class (asc, desc, shuffled, midshuf, swap2); element ids '
         'random / interleaving the types / blocked by type / equal to node ids; per mesh ALL of incidence, both adjacencies '
-        '(direct and through calculate_adjacency_matrix), n-hop (both modes, hops 1-3 quick / 1-4 thorough, self loops on/off), '
+        '(direct and through calculate_adjacency_matrix), n-hop (both modes, self loops on/off; hop counts 1-3 always and, from the '
+        'graph diameter D computed per mesh, 4, values in 5..D and one beyond D when D >= 4, else sometimes one of 4/5/7/8/16/33; '
+        'sometimes as a numpy integer), '
         'Laplacian, edge gradient, e2v x order1_only are evaluated in a shuffled sequence with repeats and random call '
         'spellings on ONE live object, each result compared with its brute-force definition and with the model; a sample is '
         're-evaluated as the first query of a fresh equal object; returned matrices are re-compared at the end of the '
         'sequence and the user data after every call; one object in four reaches its content through public in-place '
-        'connectivity edits before the first query; a case = one (mesh, history prefix, matrix, options, spelling); '
+        'connectivity edits before the first query; every 11th mesh is a LARGE-DIAMETER chain / ring of elements sharing 1-2 '
+        'corner nodes (uniform, mixed, tet+tet2 / hex+hex2 in one mesh; line rings: n_node == n_element); 10 % of the meshes get '
+        'negative and zero ids, 10 % a repeated node inside an element / twin elements, 25 % an integer dtype (int16 ... uint64) / '
+        'Fortran order / read-only flag for the id and connectivity arrays; every 13th mesh is queried through a derived object '
+        '(to_first_order, cut_with_element_ids / _type / _node_ids, optionally after queries on the parent); raising calls outside '
+        'the quantifier are interleaved (not judged); a case = one (mesh, history prefix, matrix, options, spelling); '
         'non-trivial = the matrix has at least one off-diagonal entry')
 ASSUMPTIONS = ['scipy.sparse Boolean product = OR of ANDs (reproduced by the model, validated by this correspondence)',
                'second-order types other than tet2 / hex2 raise in to_first_order and are not generated',
@@ -64,6 +89,13 @@ ASSUMPTIONS = ['scipy.sparse Boolean product = OR of ANDs (reproduced by the mod
                'queries are C19\'s open finding F11 and are not made here)',
                'a matrix handed out by an earlier call must still have the entries it had at return when the sequence ends '
                '(compared by value after densifying: scipy itself may canonicalise the index arrays of an operand in place)',
+               'the model has natural-number ids: a mesh with negative ids is sent to the driver translated by a constant (node '
+               'and element ids separately); the model only uses equality and order of ids (not proved as a theorem)',
+               'a FEMData returned by to_first_order / cut_with_element_ids / cut_with_element_type / cut_with_node_ids is "a mesh" '
+               'of the quantifier; its content is what its public attributes show when it is returned (a derivation that raises is '
+               'C09 / C18\'s subject: counted, the mesh is then queried directly)',
+               'calls with an unknown mode and calculate_e2v_matrix(include_self_loop=True) are outside the quantifier: made, never '
+               'judged; hop count 0 is not asked (the property speaks of reachability within n >= 1 steps)',
                'the diagonal entry of the self-loop-free n-hop matrix of a vertex WITHOUT self loop (unreferenced node) and the '
                'e2v columns of such vertices are not stated by the property: masked / labelled stream']
 
@@ -93,13 +125,48 @@ def first_order(t, conn):
 
 
 def reach(adj, hops):
-    a = adj.astype(int)
-    ret = a.copy()
-    pw = a.copy()
+    """reachability within 1..hops steps straight from its definition: j is reachable from i within k+1 steps iff it is
+    within one step, or some vertex reachable within k steps has j within one step (stops when nothing is added)"""
+    a = adj.astype(np.int32)
+    ret = adj.astype(bool).copy()
     for _ in range(1, hops):
-        pw = ((pw @ a) > 0).astype(int)
-        ret = ((ret + pw) > 0).astype(int)
-    return ret > 0
+        nxt = adj.astype(bool) | ((ret.astype(np.int32) @ a) > 0)
+        if (nxt == ret).all():
+            break
+        ret = nxt
+    return ret
+
+
+def diameter(adj):
+    """largest FINITE graph distance between two vertices (over all components) of a Boolean adjacency"""
+    n = len(adj)
+    if n == 0:
+        return 0
+    a = adj.astype(bool) | np.eye(n, dtype=bool)
+    cur, d = np.eye(n, dtype=bool), 0
+    while True:
+        nxt = (cur.astype(np.int32) @ a.astype(np.int32)) > 0
+        if (nxt == cur).all():
+            return d
+        cur, d = nxt, d + 1
+
+
+def hop_plan(r, E, quick):
+    """the hop counts asked on this mesh: always 1, 2, 3; on a graph of diameter D >= 4 also 4, some values in 5..D (where a
+    hop more or less changes the matrix) and one value beyond D (saturated); on short graphs sometimes one larger value
+    (saturated: binary patterns 4, 5, 7, 8, 16, 33)"""
+    D = max(diameter(E.A['elemental', False]), diameter(E.A['nodal', False]))
+    E.diam = D
+    E.coin = (lambda: r.random() < .5) if quick else None
+    hops = [1, 2, 3]
+    if D >= 4:
+        mid = list(range(5, D + 1))
+        hops += [4] + r.sample(mid, min(len(mid), (1 if len(E.nids) > 40 else 2) if quick else 5)) + [r.choice([D + 1, D + 1, D + 2, D + 3])]
+    elif not quick:
+        hops += [4, r.choice([5, 7, 8, 16, 33])]
+    elif r.random() < .25:
+        hops += [r.choice([4, 4, 5, 7, 8, 16, 33])]
+    return sorted(set(hops))
 
 
 # ------------------------------------------------------------------------------------------------ queries
@@ -139,13 +206,27 @@ def spell(r, q):
     kw = [n for n, d in params[npos:] if not (vals[n] == d and r.random() < .5)]
     if len(kw) > 1 and r.random() < .3:
         r.shuffle(kw)
+    if q[0] == 'nhop' and r.random() < .15:
+        # the hop count as a numpy integer (what `for n in np.arange(...)` / an array element hands over): equal to and
+        # hashing like the Python int, so also the same lru_cache key
+        return [npos, kw, r.choice(NP_INTS)]
     return [npos, kw]
+
+
+NP_INTS = ['int64', 'int32', 'uint8', 'intp']
+
+
+def arg_values(q, sp):
+    vals = q_values(q)
+    if len(sp) > 2 and sp[2] and vals.get('n_hop') is not None:
+        vals['n_hop'] = getattr(np, sp[2])(vals['n_hop'])
+    return vals
 
 
 def call(fd, q, sp):
     meth, params, _ = q_sig(q)
-    vals = q_values(q)
-    npos, kw = sp
+    vals = arg_values(q, sp)
+    npos, kw = sp[:2]
     pos = [vals[n] for n, _ in params[:npos]]
     with warnings.catch_warnings():
         warnings.simplefilter('ignore')
@@ -154,15 +235,24 @@ def call(fd, q, sp):
 
 def spelled(q, sp):
     meth, params, _ = q_sig(q)
-    vals = q_values(q)
-    npos, kw = sp
+    vals = arg_values(q, sp)
+    npos, kw = sp[:2]
     return meth + '(' + ', '.join([repr(vals[n]) for n, _ in params[:npos]] + [f'{n}={vals[n]!r}' for n in kw]) + ')'
 
 
-def queries(E, quick):
-    """every (matrix, options) the property talks about, for a mesh with expectation E"""
+BAD_QUERIES = [('nhop', 'volumetric', False, 2, True), ('lap', 'volumetric', False, None, None),
+               ('grad', 'edge', False, None, None), ('adjg', 'volumetric', False, None, None),
+               ('e2v', 'volumetric', None, None, False), ('e2v', 'elemental', None, None, True), ('e2v', 'nodal', None, None, True)]
+
+
+def is_bad(q):
+    """an unknown mode, or calculate_e2v_matrix(include_self_loop=True) (unsupported: AttributeError): outside the quantifier"""
+    return (q[0] != 'inc' and q[1] not in MODES) or (q[0] == 'e2v' and bool(q[4]))
+
+
+def queries(E, hops):
+    """every (matrix, options) the property talks about, for a mesh with expectation E and the hop counts `hops`"""
     qs = []
-    hops = (1, 2, 3) if quick else (1, 2, 3, 4)
     for o1 in (False, True):
         qs.append(('inc', None, o1, None, None))
         for mode in MODES:
@@ -178,7 +268,8 @@ def queries(E, quick):
             if mode == 'elemental' and o1 and E.second:
                 continue         # n-hop: the elemental adjacency ignores order1_only as well
             for h in hops:
-                for sl in (True, False):
+                # 1-3 hops with and without self loops; larger hop counts with one of the two (E.coin: drawn per mesh)
+                for sl in ((True, False) if h <= 3 or not E.coin else (E.coin(),)):
                     qs.append(('nhop', mode, o1, h, sl))
     for mode in MODES:
         qs.append(('e2v', mode, None, None, False))   # include_self_loop=True raises AttributeError: unsupported option
@@ -208,6 +299,8 @@ class Expect:
         self.B = {o1: self._incidence(o1) for o1 in (False, True)}
         self.A = {}
         self._reach, self._nontrivial = {}, {}
+        self.diam = -1
+        self.coin = None
         for o1 in (False, True):
             B = self.B[o1].astype(int)
             self.A['elemental', o1] = (B.T @ B) > 0
@@ -509,6 +602,12 @@ def gen_components(r, quick, id_style, order):
         for j in range(r.randint(1, 2)):
             nodes.append((('iso', j), (mg.F(90 + j), mg.F(90), mg.F(90))))
             n_unref += 1
+    return assemble(r, 'components', nodes, elems, id_style, order, n_unref, n_parts=len(parts))
+
+
+def assemble(r, kind, nodes, elems, id_style, order, n_unref, **extra):
+    """nodes [(key, xyz)], elems [(type, key, [node keys])] -> mesh with node ids of the given style assigned at random to
+    the keys, the storage-order class `order`, shuffled element storage and random element ids"""
     keys = [k for k, _ in nodes]
     if id_style in ('offset', 'gapped'):
         id_list = small_ids(r, len(keys), id_style)
@@ -520,22 +619,194 @@ def gen_components(r, quick, id_style, order):
     xyz = dict(nodes)
     eids, _ = mg.random_ids(r, len(elems), r.choice(['dense', 'sparse', 'large']))
     r.shuffle(eids)
+    elems = list(elems)
     r.shuffle(elems)
     blocks = {}
     for (t, _, c), e in zip(elems, eids):
         blocks.setdefault(t, []).append((e, [idmap[n] for n in c]))
     blocks = {t: blocks[t] for t in mg.ELEMENT_TYPES if t in blocks}
-    return {'kind': 'components:' + '+'.join(sorted(blocks)), 'order': order, 'id_style': id_style,
-            'nodes': [(idmap[k], xyz[k]) for k in keys], 'blocks': blocks, 'n_unref': n_unref, 'n_parts': len(parts)}
+    return dict({'kind': kind + ':' + '+'.join(sorted(blocks)), 'order': order, 'id_style': id_style,
+                 'nodes': [(idmap[k], xyz[k]) for k in keys], 'blocks': blocks, 'n_unref': n_unref}, **extra)
+
+
+N_CORNER = {'line': 2, 'tri': 3, 'quad': 4, 'tet': 4, 'pyr': 5, 'prism': 6, 'hex': 8, 'tet2': 4, 'hex2': 8}
+LONG_FIRST = ['line', 'tri', 'quad', 'tet', 'pyr', 'prism', 'hex']
+
+
+def gen_long(r, quick, id_style, order):
+    """LARGE-DIAMETER graphs as a deliberate style (n-hop matrices with 4 and more hops only differ from fewer hops here):
+    an open chain or a closed ring of elements in which consecutive elements share s = 1 or 2 CORNER nodes and nothing
+    else (element graph = path / cycle); uniform, mixed first-order types, or first + second order of one shape in ONE
+    mesh (tet + tet2, hex + hex2); a ring of n line elements / 2-node-sharing ... has n_node == n_element (square
+    incidence matrix); optionally a second short chain or a single element as a separate component and an isolated node"""
+    u = r.random()
+    if u < .45:
+        pool = [r.choice(LONG_FIRST + ['tet2', 'line', 'tri', 'quad'])]
+    elif u < .75:
+        pool = r.sample(LONG_FIRST, r.randint(2, 3))
+    else:
+        pool = r.choice([['tet', 'tet2'], ['hex', 'hex2'], ['tet', 'tet2', 'hex'], ['quad', 'tet2']])
+    budget = 60 if quick else 130
+    closed = r.random() < .3
+    want = r.randint(8, 12) if closed else r.randint(5, 10) if quick else r.randint(5, 18)
+    s = 2 if (all(N_CORNER[t] >= 4 for t in pool) and r.random() < .4) else 1
+    nodes, elems = [], []
+
+    def chain(tag, types, s, closed):
+        n = len(types)
+        link = [[(tag, 'l', j, a) for a in range(s)] for j in range(n + (0 if closed else 1))]
+        for j, t in enumerate(types):
+            own = [(tag, 'o', j, a) for a in range(mg.ARITY[t] - 2 * s)]
+            conn = link[j] + link[(j + 1) % len(link)] + own
+            # the shared nodes sit at corner positions (the first 2 s of the connectivity), in a random arrangement
+            head = conn[:2 * s]
+            r.shuffle(head)
+            tail = conn[2 * s:N_CORNER[t]]
+            corner = head + tail
+            r.shuffle(corner)
+            elems.append((t, (tag, j), corner + conn[N_CORNER[t]:]))
+        for grp in link:
+            for key in grp:
+                nodes.append((key, (mg.F(len(nodes)), mg.F(r.randint(-9, 9), 2), mg.F(r.randint(-9, 9)))))
+        for j, t in enumerate(types):
+            for a in range(mg.ARITY[t] - 2 * s):
+                nodes.append(((tag, 'o', j, a), (mg.F(len(nodes)), mg.F(r.randint(-9, 9), 4), mg.F(r.randint(-9, 9)))))
+
+    types, used = [], 0
+    while len(types) < want:
+        t = pool[len(types)] if len(types) < len(pool) else r.choice(pool)
+        if used + mg.ARITY[t] - s > budget and len(types) >= 3:
+            break
+        types.append(t)
+        used += mg.ARITY[t] - s
+    if closed and len(types) < 3:
+        closed = False
+    chain('a', types, s, closed)
+    n_parts, n_unref = 1, 0
+    if r.random() < .5:
+        n_parts = 2
+        t2 = [r.choice(pool + ['tri', 'line']) for _ in range(r.randint(1, 3))]
+        chain('b', t2, 1, False)
+    if r.random() < .15:
+        nodes.append((('iso', 0), (mg.F(-5), mg.F(90), mg.F(90))))
+        n_unref = 1
+    m = assemble(r, 'long-' + ('ring' if closed else 'chain') + str(s), nodes, elems, id_style, order, n_unref,
+                 n_parts=n_parts)
+    return m
 
 
 def gen_mesh(ctx, k):
+    """mesh k of the run (see gen_base); every 13th one is queried THROUGH A DERIVED OBJECT (gen_derive)"""
+    r = ctx.rng
+    m = gen_base(ctx, k)
+    u = r.random()
+    if u < .1:
+        m = signed_ids(r, m)
+    elif u < .2:
+        m = many_to_one(r, m)
+    if r.random() < .25:
+        m = dict(m, layout=gen_layout(r, m))
+    if k % 13 == 7:
+        m = dict(m, derive=gen_derive(r, m))
+    return m
+
+
+def signed_ids(r, m):
+    """NEGATIVE AND ZERO ids together with the positive ones (rank-preserving: the lowest third of the node ids, and with
+    probability 1/2 of the element ids, is shifted so that its largest member becomes 0; the storage-order class is kept)"""
+    def shift(ids):
+        low = sorted(ids)[:max(1, len(ids) // 3)]
+        return {i: (i - low[-1] if i <= low[-1] else i) for i in ids}
+    f = shift([i for i, _ in m['nodes']])
+    g = shift([e for b in m['blocks'].values() for e, _ in b]) if r.random() < .5 else {}
+    m = dict(m)
+    m['nodes'] = [(f[i], p) for i, p in m['nodes']]
+    m['blocks'] = {t: [(g.get(e, e), [f[n] for n in c]) for e, c in b] for t, b in m['blocks'].items()}
+    m['id_style'] = str(m.get('id_style')) + '+signed'
+    return m
+
+
+def many_to_one(r, m):
+    """non-injective structure: an element that lists one node twice (degenerate, as the collapsed hexahedra that
+    resolve_degeneracy exists for) and / or two elements of one type with the same members (in another arrangement)"""
+    m = dict(m, blocks={t: [(e, list(c)) for e, c in b] for t, b in m['blocks'].items()})
+    cand = [(t, i) for t, b in m['blocks'].items() if '2' not in t for i, (_, c) in enumerate(b) if len(c) >= 3]
+    what = []
+    if cand and r.random() < .7:
+        t, i = r.choice(cand)
+        c = m['blocks'][t][i][1]
+        a, b_ = r.sample(range(len(c)), 2)
+        c[a] = c[b_]
+        what.append('repeated-node')
+    twins = [t for t, b in m['blocks'].items() if len(b) >= 2 and '2' not in t]
+    if twins and (not what or r.random() < .5):
+        t = r.choice(twins)
+        i, j = r.sample(range(len(m['blocks'][t])), 2)
+        c = list(m['blocks'][t][i][1])
+        r.shuffle(c)
+        m['blocks'][t][j] = (m['blocks'][t][j][0], c)
+        what.append('twin-elements')
+    if what:
+        m['kind'] = str(m['kind']).replace(':', '~' + '+'.join(what) + ':', 1) if ':' in str(m['kind']) \
+            else str(m['kind']) + '~' + '+'.join(what)
+        m['n_unref'] = None
+    return m
+
+
+LAYOUT_DTYPES = ['int32', 'int32', 'uint32', 'uint64', 'int16', 'uint8', 'int64']
+
+
+def gen_layout(r, m):
+    """[dtype of the id and connectivity arrays, connectivity Fortran-ordered?, read-only?] - every integer dtype that can
+    hold the ids of the mesh is a legitimate way to hand them over"""
+    ids = [i for i, _ in m['nodes']] + [e for b in m['blocks'].values() for e, _ in b]
+    lo, hi = min(ids), max(ids)
+    ok = [d for d in LAYOUT_DTYPES if np.iinfo(d).min <= lo and hi <= np.iinfo(d).max]
+    return [r.choice(ok), r.random() < .5, r.random() < .3]
+
+
+def to_femio(m):
+    """mg.to_femio, with the dtype / memory layout of m['layout'] for the id and connectivity arrays"""
+    lay = m.get('layout')
+    if not lay:
+        return mg.to_femio(m)
+    from femio import FEMData, FEMAttribute, FEMElementalAttribute
+    dt, forder, ro = lay
+
+    def arr(x, two_d=False):
+        a = np.array(x, dtype=dt)
+        if two_d and forder:
+            a = np.asfortranarray(a)
+        if ro:
+            a.setflags(write=False)
+        return a
+    nodes = FEMAttribute('NODE', ids=arr([i for i, _ in m['nodes']]),
+                         data=np.array([[float(v) for v in p] for _, p in m['nodes']]), silent=True)
+    el = {t: FEMAttribute(t, ids=arr([e for e, _ in b]), data=arr([c for _, c in b], True), silent=True)
+          for t, b in m['blocks'].items()}
+    return mg.quiet(lambda: FEMData(nodes=nodes, elements=FEMElementalAttribute('ELEMENT', mg.insertion_order(el))))
+
+
+def enc_model(m):
+    """protocol encoding of the mesh for the model, whose ids are natural numbers: a mesh with negative ids is sent
+    translated by a constant (node ids and element ids separately) - equality and order of ids, all the model uses, are kept"""
+    nmin = min([i for i, _ in m['nodes']] + [0])
+    emin = min([e for b in m['blocks'].values() for e, _ in b] + [0])
+    if nmin < 0 or emin < 0:
+        m = dict(m, nodes=[(i - nmin, p) for i, p in m['nodes']],
+                 blocks={t: [(e - emin, [n - nmin for n in c]) for e, c in b] for t, b in m['blocks'].items()})
+    return mg.enc_mesh(m)
+
+
+def gen_base(ctx, k):
     """mesh k of the run: node id style and storage-order class are STRATIFIED over k (every combination occurs in
     every 42 consecutive meshes), everything else is random"""
     r = ctx.rng
     id_style = ID_STYLES[k % len(ID_STYLES)]
     order = ORDERS[k % len(ORDERS)]
     base_style = id_style if id_style not in ('offset', 'gapped') else 'dense'
+    if k % 11 == 5:      # 11 is coprime to 6 and 7: the long meshes run through every id style and storage-order class
+        return relabel_elems(r, gen_long(r, ctx.quick, id_style, order), r.choice(EID_STYLES))
     u = r.random()
     mc = 2 if ctx.quick else 3
     if u < .35:
@@ -577,19 +848,19 @@ def gen_edit(r, m):
 def build(m, edit):
     """the femio object of mesh m; with an edit plan: built from the perturbed connectivity, then edited to m"""
     if not edit:
-        return mg.to_femio(m)
+        return to_femio(m)
     from femio import FEMAttribute
     means, cells = edit
     m0 = dict(m, blocks={t: [(e, list(c)) for e, c in b] for t, b in m['blocks'].items()})
     for t, ri, ci, other in cells:
         m0['blocks'][t][ri][1][ci] = other
-    fd = mg.to_femio(m0)
+    fd = to_femio(m0)
     for t, b in m['blocks'].items():
         mine = [x for x in cells if x[0] == t]
         if not mine:
             continue
-        arr = np.array([c for _, c in b])
         a = fd.elements[t]
+        arr = np.array([c for _, c in b], dtype=np.asarray(a.data).dtype)     # the dtype the object was built with
         if means == 'inplace':
             for _, ri, ci, _o in mine:
                 a.data[ri, ci] = arr[ri, ci]
@@ -600,12 +871,74 @@ def build(m, edit):
                 sub = a.loc[[b[ri][0]]]
                 sub.data = arr[[ri]]
         elif means == 'update-block':
-            mg.quiet(fd.elements.update, {t: FEMAttribute(t, ids=np.array([e for e, _ in b]), data=arr, silent=True)})
+            mg.quiet(fd.elements.update, {t: FEMAttribute(t, ids=np.array([e for e, _ in b], dtype=np.asarray(a.ids).dtype),
+                                                           data=arr, silent=True)})
         elif means == 'parent-setter':
             fd.elements.data = arr
         else:
             raise ValueError(means)
     return fd
+
+
+# ------------------------------------------------------------------------------------------------ derived objects (S)
+
+def gen_derive(r, m):
+    """a plan [[operation, argument], ...] of public operations that return a NEW FEMData (whose element blocks / tables
+    were built from the parent's): the graph queries are then made on the result, which is "a mesh" like any other;
+    'warm' = the parent answers graph queries first (its caches are filled before the derivation)"""
+    second = any('2' in t for t in m['blocks'])
+    eids = [e for b in m['blocks'].values() for e, _ in b]
+    ops = []
+    u = r.random()
+    if second and u < .4:
+        ops.append(['to_first_order', None])
+    if not ops or r.random() < .4:
+        v = r.random()
+        if v < .55 or len(eids) < 2:
+            sub = r.sample(eids, r.randint(max(1, len(eids) // 2), len(eids)))      # in a non-ascending order
+            cut = ['cut_with_element_ids', sub]
+        elif v < .75 and len(m['blocks']) > 1:
+            cut = ['cut_with_element_type', r.choice(list(m['blocks']))]
+        else:
+            keep = r.sample(eids, r.randint(1, len(eids)))
+            conn = {e: c for b in m['blocks'].values() for e, c in b}
+            nids = sorted({n for e in keep for n in conn[e]})
+            r.shuffle(nids)
+            cut = ['cut_with_node_ids', nids]
+        ops.insert(r.randint(0, len(ops)), cut)
+    if r.random() < .4:
+        ops.insert(0, ['warm', None])
+    return ops
+
+
+def derive(fd, ops):
+    """-> (derived object, [parents kept alive])"""
+    parents = []
+    for op, arg in ops:
+        if op == 'warm':
+            with warnings.catch_warnings():
+                warnings.simplefilter('ignore')
+                mg.quiet(fd.calculate_adjacency_matrix_element)
+                mg.quiet(fd.calculate_n_hop_adj, 'nodal', 2)
+            continue
+        parents.append(fd)
+        if op == 'to_first_order':
+            fd = mg.quiet(fd.to_first_order)
+        elif op == 'cut_with_element_type':
+            fd = mg.quiet(fd.cut_with_element_type, arg)
+        elif op in ('cut_with_element_ids', 'cut_with_node_ids'):
+            fd = mg.quiet(getattr(fd, op), np.array(arg))
+        else:
+            raise ValueError(op)
+    return fd, parents
+
+
+def mesh_of(fd, m):
+    """the public state of an object as a mesh description (for the model and the evidence)"""
+    return {'kind': 'derived(' + str(m['kind']) + ')', 'order': m['order'], 'id_style': m.get('id_style'),
+            'eid_style': m.get('eid_style', 'random'),
+            'nodes': [(int(i), tuple(mg.F(float(v)) for v in p)) for i, p in zip(fd.nodes.ids, fd.nodes.data)],
+            'blocks': {t: [(int(e), [int(n) for n in c]) for e, c in zip(a.ids, a.data)] for t, a in fd.elements.items()}}
 
 
 # ------------------------------------------------------------------------------------------------ one mesh
@@ -642,8 +975,11 @@ class Live:
         self.ctx, self.m, self.edit, self.label = ctx, m, edit, label
         self.fd = build(m, edit)
         self.applied = public_blocks(self.fd) == {t: [(e, list(c)) for e, c in b] for t, b in m['blocks'].items()}
+        self.parents = []
+        if m.get('derive'):
+            self.fd, self.parents = derive(self.fd, m['derive'])
         self.E = E if E is not None else Expect(self.fd)
-        self.user0 = userdata(self.fd)
+        self.user0 = self._userdata()
         self.user_reported = False
         self.held = []      # (index in history, q, raw result, canonical value at return)
         self.hist = []      # [q, spelling]
@@ -665,8 +1001,15 @@ class Live:
         self.held.append((len(self.hist) - 1, q, raw, c))
         return 'ok', c, raw
 
+    def _userdata(self):
+        out = userdata(self.fd)
+        for k, p in enumerate(self.parents):        # a derived object may share arrays with its parents
+            if p is not self.fd:
+                out.update({f'parent{k}.{n}': v for n, v in userdata(p).items()})
+        return out
+
     def user_changed(self):
-        now = userdata(self.fd)
+        now = self._userdata()
         return sorted(k for k in set(now) | set(self.user0) if now.get(k) != self.user0.get(k))
 
     def held_changed(self):
@@ -687,10 +1030,35 @@ def check_mesh(ctx, m, plan=None):
     r = ctx.rng
     d = mg.describe(m)
     d['eid_style'] = m.get('eid_style', 'random')
-    enc = mg.enc_mesh(m)
+    enc = enc_model(m)
     replaying = plan is not None
-    edit = plan.get('edit') if replaying else (gen_edit(r, m) if r.random() < .25 else None)
-    live = Live(ctx, m, edit)
+    edit = plan.get('edit') if replaying else (gen_edit(r, m) if r.random() < .25 and not m.get('derive') and not (m.get('layout') or [0, 0, 0])[2] else None)
+    if m.get('derive'):
+        try:
+            live = Live(ctx, m, edit)
+            ctx.count('stream:derived-object:' + '+'.join(op for op, _ in m['derive']))
+            mm = mesh_of(live.fd, m)
+            d = dict(mg.describe(mm), eid_style=mm['eid_style'], derived_by=[op for op, _ in m['derive']],
+                     parent=mg.describe(m))
+            enc = enc_model(mm)
+            live.mm = mm
+        except Exception as e:
+            if not inside_femio(e):
+                raise
+            # the derivation itself failed (C09 / C18's subject): not judged here, the mesh is queried directly
+            ctx.count('stream:derivation-raised(not judged)')
+            m = {k_: v for k_, v in m.items() if k_ != 'derive'}
+            live = Live(ctx, m, edit)
+    else:
+        try:
+            live = Live(ctx, m, edit)
+        except Exception as e:
+            if not (edit and inside_femio(e)) or replaying:
+                raise
+            # the editing means itself raised (C08's subject): not judged here, the mesh is built directly
+            ctx.count('stream:public-edit-raised(not judged)')
+            edit = None
+            live = Live(ctx, m, None)
     E = live.E
     ctx.count('kind:' + ('mixed' if len(m['blocks']) > 1 else 'uniform'))
     ctx.count('gen:' + str(m['kind']).split(':')[0])
@@ -698,6 +1066,9 @@ def check_mesh(ctx, m, plan=None):
     ctx.count('ids:' + str(m.get('id_style')))
     ctx.count('eids:' + str(m.get('eid_style', 'random')))
     ctx.count('second-order' if E.second else 'first-order')
+    if m.get('layout'):
+        ctx.count('layout:' + m['layout'][0] + (',F-order' if m['layout'][1] else '') + (',read-only' if m['layout'][2] else ''))
+    ctx.count('square-incidence' if len(E.nids) == len(E.eids) else 'non-square-incidence')
     ctx.count('unreferenced-nodes' if (~np.diag(E.A['nodal', False])).any() else 'all-nodes-referenced')
     single = int(((E.A['elemental', False].sum(axis=1)) == 1).sum())
     ctx.count('isolated-single-elements:' + ('0' if not single else '1' if single == 1 else '2+'))
@@ -709,7 +1080,8 @@ def check_mesh(ctx, m, plan=None):
             ctx.count('stream:public-edit-did-not-apply(not judged)')
             live = Live(ctx, m, None)
             E, edit = live.E, None
-    qs = queries(E, ctx.quick)
+    qs = queries(E, hop_plan(r, E, ctx.quick) if not replaying else (1, 2, 3))
+    ctx.count('graph-diameter:' + ('replay' if replaying else '0-3' if E.diam < 4 else '4-6' if E.diam < 7 else '7+'))
     if replaying:
         seq = [(tuple(q), sp) for q, sp in plan['seq']]
         fresh_at = list(plan.get('fresh', []))
@@ -719,8 +1091,13 @@ def check_mesh(ctx, m, plan=None):
             i = r.randrange(len(seq))
             j = r.choice([i + 1, r.randint(i + 1, len(seq))])
             seq.insert(j, (seq[i][0], seq[i][1] if r.random() < .5 else spell(r, seq[i][0])))
+        if r.random() < .3:
+            # calls OUTSIDE the quantifier that (may) raise, in between: what follows on the same object is judged as ever
+            for _ in range(r.randint(1, 2)):
+                bq = r.choice(BAD_QUERIES)
+                seq.insert(r.randrange(len(seq) + 1), (bq, spell(r, bq)))
         fresh_at = sorted(r.sample(range(len(seq)), min(len(seq), ctx.n(6, 8))))
-    job = ModelJob(ctx, enc, [q for q, _ in seq])
+    job = ModelJob(ctx, enc, [q for q, _ in seq if not is_bad(q)])
     try:
         _check_history(ctx, m, d, enc, edit, live, seq, fresh_at, job)
     finally:
@@ -731,6 +1108,10 @@ def check_mesh(ctx, m, plan=None):
 def _check_history(ctx, m, d, enc, edit, live, seq, fresh_at, job):
     E = live.E
     case0 = {'mesh': mg.to_json(m), 'edit': edit}
+    if m.get('derive'):
+        case0['derive'] = m['derive']
+    if m.get('layout'):
+        case0['layout'] = m['layout']
     results = []
 
     def case_of(upto, extra=None, shrink=None, sig=None):
@@ -752,6 +1133,19 @@ def _check_history(ctx, m, d, enc, edit, live, seq, fresh_at, job):
 
     def classify(q, sp, i, what):
         """slow path, only after a failure of call #i: is it the input alone, the public edit, or the preceding calls?"""
+        if m.get('derive'):
+            mm = {k_: v for k_, v in live.mm.items()}
+            f = Live(ctx, mm, None, label='direct')
+            st_, c_, _ = f.step(q, sp)
+            if not (st_ == 'ok' and any(judge(f.E, q, c_))):
+                return what, dict(mesh=mg.to_json(mm), edit=None, seq=[[list(q), sp]], calls=[spelled(q, sp)]), \
+                    '; the same call fails as the first query of an object built directly from the same content'
+            if not first_query(q, sp, False)[2]:
+                return prefix + what, mk_case([(q, sp)], None), \
+                    ('; it is correct as the first query of an object built directly from the same content and wrong as '
+                     'the first query of the derived object')
+            return prefix + 'history:' + what, case_of(i, shrink='value', sig=prefix + 'history:' + what), \
+                '; the same call as the first query of an equal derived object is correct: the preceding calls matter'
         if not first_query(q, sp, False)[2]:
             return what, mk_case([(q, sp)], None), \
                 '; the same call fails as the first query of a fresh object built from the same content'
@@ -764,8 +1158,18 @@ def _check_history(ctx, m, d, enc, edit, live, seq, fresh_at, job):
 
     prefix = 'after-public-edit:' if edit else ''
     where = (f' after public connectivity edits ({edit[0]}) before the first query' if edit else '')
+    if m.get('derive'):
+        where = ' obtained by ' + ' -> '.join(op for op, _ in m['derive'])
+        prefix = 'derived-object:'
     for i, (q, sp) in enumerate(seq):
         what = q_what(q)
+        if is_bad(q):
+            n_held = len(live.held)
+            st, c, raw = live.step(q, sp)
+            del live.held[n_held:]
+            ctx.count(f'stream:call-outside-quantifier({"raises" if st == "raises" else "returns"}; not judged)')
+            results.append(('skip', None))
+            continue
         st, c, raw = live.step(q, sp)
         ctx.case((enc, repr(edit), i, q, repr(sp)),
                  sample={'mesh': d, 'matrix': what, 'options': q_opts(q), 'call': spelled(q, sp), 'position_in_history': i},
@@ -902,6 +1306,10 @@ def replay(ctx, obj):
     inp = obj['input']
     m = mg.from_json(inp['mesh'])
     m.setdefault('id_style', '?')
+    if inp.get('derive'):
+        m['derive'] = inp['derive']
+    if inp.get('layout'):
+        m['layout'] = inp['layout']
     before = len(ctx.failures)
     ctx.c13_replaying = True
     if 'seq' in inp:
